@@ -324,3 +324,123 @@ Proof.
       replace (forallb is_float (MBool b :: t)) with false by reflexivity.
       cbn [dnum d_kind d_shape d_num]. rewrite map_num_bool by exact Hb'. reflexivity.
 Qed.
+
+(* ------------------------------------------------------------------ category names *)
+Lemma reserved_cases k : reserved k = true ->
+  k = s_taxonomy \/ k = s_Taxonomy \/ k = s_KEGG \/ k = s_collapsed.
+Proof.
+  unfold reserved. rewrite !orb_true_iff, !lz_eqb_eq. tauto.
+Qed.
+
+Lemma catname_back k : cat_ok k -> unsanitize (catname k) = k.
+Proof.
+  intros [_ H]. unfold catname. destruct (reserved k) eqn:R; [|exact H].
+  destruct (reserved_cases k R) as [-> | [-> | [-> | ->]]]; reflexivity.
+Qed.
+
+Lemma text_catname k : cat_ok k -> text (catname k).
+Proof. intros [T _]. unfold catname. destruct (reserved k); [exact T|apply text_sanitize; exact T]. Qed.
+
+Lemma catname_inj a b : cat_ok a -> cat_ok b -> utf8_encode (catname a) = utf8_encode (catname b) -> a = b.
+Proof.
+  intros Ha Hb E. apply utf8_encode_inj in E; [|apply text_catname; assumption|apply text_catname; assumption].
+  rewrite <- (catname_back a Ha), <- (catname_back b Hb), E. reflexivity.
+Qed.
+
+Lemma NoDup_map_inj {A B} (g : A -> B) l :
+  (forall x y, In x l -> In y l -> g x = g y -> x = y) -> NoDup l -> NoDup (map g l).
+Proof.
+  induction l as [|x l IH]; intros Hinj Hn; [constructor|]. inversion Hn as [|? ? Hx Hl]; subst. cbn [map]. constructor.
+  - intros Hi. apply in_map_iff in Hi. destruct Hi as [y [E Hy]]. apply Hx.
+    rewrite (Hinj x y (or_introl eq_refl) (or_intror Hy) (eq_sym E)). exact Hy.
+  - apply IH; [|exact Hl]. intros a b Ha Hb. apply Hinj; right; assumption.
+Qed.
+
+Lemma bdup_NoDup l : NoDup l -> bdup l = false.
+Proof.
+  induction l as [|x t IH]; intros H; [reflexivity|]. inversion H as [|? ? Hx Ht]; subst. cbn [bdup].
+  rewrite (IH Ht), orb_false_r. destruct (existsb (lz_eqb x) t) eqn:E; [|reflexivity].
+  apply existsb_exists in E. destruct E as [y [Hy E]]. apply lz_eqb_eq in E. subst. contradiction.
+Qed.
+Lemma sdup_NoDup l : NoDup l -> sdup l = false.
+Proof. exact (bdup_NoDup l). Qed.
+
+(* ------------------------------------------------------------------ an axis' metadata: format *)
+Definition md_dsets (rows : list mdrow) : list (bytes * dset) :=
+  match rows with
+  | [] => []
+  | r0 :: _ => map (fun k => (utf8_encode (catname k), cat_dset k (column rows k))) (mdkeys r0)
+  end.
+Definition md_written (md : option (list mdrow)) : list (bytes * dset) :=
+  match md with Some rows => md_dsets rows | None => [] end.
+
+Theorem format_md_ok md n : md_homogeneous md n -> format_md md = ROk (md_written md).
+Proof.
+  destruct md as [[|r0 rest]|]; try reflexivity. intros (_ & _ & Hnd & Hcat & Hrest & Hcol).
+  unfold format_md, md_written, md_dsets.
+  replace (forallb (fun r => same_keys r r0) rest) with true.
+  2:{ symmetry. apply forallb_forall. intros r Hr. rewrite Forall_forall in Hrest. apply (Hrest r Hr). }
+  rewrite (mapM_ok _ (fun k => (utf8_encode (catname k), cat_dset k (column (r0 :: rest) k)))).
+  - cbn [bind]. rewrite map_map. cbn [fst]. rewrite bdup_NoDup; [reflexivity|].
+    apply NoDup_map_inj; [|exact Hnd]. intros a b Ha Hb. rewrite Forall_forall in Hcat.
+    apply catname_inj; apply Hcat; assumption.
+  - apply Forall_forall. intros k Hk. rewrite Forall_forall in Hcol.
+    apply format_category_ok; [discriminate|apply Hcol; exact Hk].
+Qed.
+
+(* ------------------------------------------------------------------ group metadata: format *)
+Definition gmd_written (g : list (str * (str * str))) : list (bytes * dset) :=
+  map (fun e => (utf8_encode (fst e), mkD KVStr [1] [] [utf8_encode (snd (snd e))]
+                                          [(b_data_type, utf8_encode (fst (snd e)))])) g.
+
+Lemma format_gmd_ok g : gmd_ok g -> format_gmd g = ROk (gmd_written g).
+Proof.
+  intros [_ F]. unfold format_gmd.
+  replace (existsb (fun e => has_slash (fst e)) g) with false; [reflexivity|].
+  symmetry. destruct (existsb (fun e => has_slash (fst e)) g) eqn:E; [|reflexivity].
+  apply existsb_exists in E. destruct E as [e [He Hs]]. rewrite Forall_forall in F.
+  destruct (F e He) as (_ & H & _). congruence.
+Qed.
+
+(* ------------------------------------------------------------------ children of the groups of a written file *)
+Lemma children_of_app l1 l2 g : children_of (l1 ++ l2) g = children_of l1 g ++ children_of l2 g.
+Proof. apply flat_map_app. Qed.
+
+Lemma children_of_under_same g l : children_of (under g l) g = l.
+Proof.
+  induction l as [|[name d] t IH]; [reflexivity|]. cbn [under map children_of flat_map fst snd].
+  rewrite rev_app_distr. cbn [rev app]. rewrite rev_involutive, path_eqb_refl. cbn [app]. f_equal. exact IH.
+Qed.
+
+Lemma children_of_under_other g' l g : path_eqb g' g = false -> children_of (under g' l) g = [].
+Proof.
+  intros H. induction l as [|[name d] t IH]; [reflexivity|]. cbn [under map children_of flat_map fst snd].
+  rewrite rev_app_distr. cbn [rev app]. rewrite rev_involutive, H. exact IH.
+Qed.
+
+Lemma children_matrix a r n g : path_eqb [a; b_matrix] g = false -> children_of (matrix_dsets a r n) g = [].
+Proof. intros H. unfold matrix_dsets. cbn [children_of flat_map fst snd rev app]. rewrite H. reflexivity. Qed.
+
+Lemma children_ids a ids g : path_eqb [a] g = false -> children_of (ids_dset a ids) g = [].
+Proof. intros H. unfold ids_dset. cbn [children_of flat_map fst snd rev app]. rewrite H. reflexivity. Qed.
+
+Ltac kids :=
+  unfold children, assemble; cbn [dsets]; rewrite !children_of_app;
+  repeat first [ rewrite children_of_under_same
+               | rewrite children_of_under_other by reflexivity
+               | rewrite children_matrix by reflexivity
+               | rewrite children_ids by reflexivity ];
+  rewrite ?app_nil_r; reflexivity.
+
+Section WrittenChildren.
+  Variables (st : state) (genby date : str) (omd ogmd smd sgmd : list (bytes * dset)).
+  Let f := assemble st genby date omd ogmd smd sgmd.
+  Lemma w_children_omd : children f [b_observation; b_metadata] = omd.
+  Proof. unfold f. kids. Qed.
+  Lemma w_children_ogmd : children f [b_observation; b_group_metadata] = ogmd.
+  Proof. unfold f. kids. Qed.
+  Lemma w_children_smd : children f [b_sample; b_metadata] = smd.
+  Proof. unfold f. kids. Qed.
+  Lemma w_children_sgmd : children f [b_sample; b_group_metadata] = sgmd.
+  Proof. unfold f. kids. Qed.
+End WrittenChildren.
